@@ -10,4 +10,13 @@ for d in $(ls -d /tmp/wt_C* | sort); do
     git -C /repo status --short | grep -v '^??' && { echo "REPO NOT CLEAN after $id-$n"; git -C /repo checkout -- .; }
   done
 done
+# second round (worktrees /tmp/wt2_<ID>, stored as <ID>-3 / <ID>-4)
+for d in $(ls -d /tmp/wt2_C* 2>/dev/null | sort); do
+  id=$(basename $d); id=${id#wt2_}
+  for n in 1 2; do
+    [ -f $d/seed$n.patch ] || continue
+    WT=$d OUTN=$((n+2)) tools/seed_eval.sh $id $n 2>&1 | tail -1 | cut -c1-200
+    git -C /repo status --short | grep -v '^??' && { echo "REPO NOT CLEAN after $id-$((n+2))"; git -C /repo checkout -- .; }
+  done
+done
 python3 tools/seed_table.py
